@@ -29,7 +29,8 @@ sys.path.insert(0, REPO)
 
 COQ = os.path.join(VERIF, 'coq')
 OCAML = os.path.join(VERIF, 'ocaml')
-HIDLEX = os.path.join(OCAML, 'hidlex')
+DEFAULT_WORK = os.path.join(VERIF, '.work', 'lexer')
+HIDLEX = [os.path.join(OCAML, 'hidlex')]             # the driver binary (like ocaml/hidvm)
 COQ_FILES = ['Gen/GenLexer.v', 'HiD/Lexer.v', 'Extract/ExtractLexer.v']
 
 
@@ -41,8 +42,9 @@ def _newer(a, b):
     return (not os.path.exists(b)) or os.path.getmtime(a) > os.path.getmtime(b)
 
 
-def ensure_built(log=None):
-    """regen -> coqc (model + extraction) -> ocamlfind.  Raises RuntimeError on any failure."""
+def ensure_built(workdir=None):
+    """regen -> coqc (tables, model, extraction) -> ocamlfind -> ocaml/hidlex.
+    Raises RuntimeError / CannotTranslate on any failure."""
     import regen_lexer
     for rel, text in regen_lexer.generate(REPO).items():
         write_if_changed(os.path.join(VERIF, rel), text)
@@ -56,14 +58,15 @@ def ensure_built(log=None):
                                stdout=subprocess.PIPE, stderr=subprocess.STDOUT)
             if p.returncode != 0:
                 raise RuntimeError('coqc %s failed:\n%s' % (f, p.stdout.decode()[-2000:]))
-    core = os.path.join(OCAML, 'hidlex_core.ml')
-    drv = os.path.join(OCAML, 'hidlex.ml')
-    if stale or _newer(core, HIDLEX) or _newer(drv, HIDLEX):
+    binary = HIDLEX[0]
+    srcs = [os.path.join(OCAML, n) for n in ('hidlex_core.mli', 'hidlex_core.ml', 'hidlex.ml')]
+    if stale or any(_newer(x, binary) for x in srcs):
         p = subprocess.run(['timeout', '600', 'ocamlfind', 'ocamlopt', '-O2', '-w', '-a',
                             'hidlex_core.mli', 'hidlex_core.ml', 'hidlex.ml', '-o', 'hidlex'],
                            cwd=OCAML, stdout=subprocess.PIPE, stderr=subprocess.STDOUT)
         if p.returncode != 0:
             raise RuntimeError('ocaml build failed:\n%s' % p.stdout.decode()[-2000:])
+    return binary
 
 
 # ------------------------------------------------------------------------------------------------
@@ -100,7 +103,7 @@ def model_lex(texts):
         return []
     data = oracle_header(texts) + ''.join(
         'T ' + ' '.join(str(ord(c)) for c in t) + '\n' for t in texts)
-    cmd = 'ulimit -s unlimited 2>/dev/null || ulimit -s 1000000 2>/dev/null; exec "%s"' % HIDLEX
+    cmd = 'ulimit -s unlimited 2>/dev/null || ulimit -s 1000000 2>/dev/null; exec "%s"' % HIDLEX[0]
     p = subprocess.run(['bash', '-c', cmd], input=data.encode(), stdout=subprocess.PIPE,
                        stderr=subprocess.PIPE, timeout=900)
     lines = p.stdout.decode().split('\n')
@@ -639,7 +642,9 @@ def run(tier='quick', seed=0, workdir=None, build=True):
     t0 = time.time()
     tier = os.environ.get('VERIF_TIER', tier)
     if build and not os.environ.get('VERIF_LEXER_NOBUILD'):
-        ensure_built()
+        ensure_built(workdir)
+    if not os.path.exists(HIDLEX[0]):
+        raise RuntimeError('driver %s not built' % HIDLEX[0])
     rnd = random.Random(seed)
     sz = SIZES[tier]
     dist = {}
@@ -722,15 +727,19 @@ def run(tier='quick', seed=0, workdir=None, build=True):
 
     # shrink (model-vs-impl disagreements only; at most 10)
     shrunk = []
-    for d in disagreements[:10]:
+    shrunk_seen = set()
+    for d in disagreements[:12]:
         if d['kind'] in ('relayout-tokens', 'relayout-asm'):
             shrunk.append(d)
             continue
         s = shrink(d['input'])
+        if s in shrunk_seen:
+            continue
+        shrunk_seen.add(s)
         m = model_lex([s])[0]
         shrunk.append({'kind': d['kind'], 'input': s, 'input_codepoints': [ord(c) for c in s],
                        'model': m, 'impl': impl_lex(s), 'original_input': d['input']})
-    shrunk += disagreements[10:50]
+    shrunk += disagreements[12:40]
 
     samples = []
     for kind in dist:
